@@ -187,7 +187,7 @@ def _run_one(tape, tier, prop):
     mode = t.choice(["true_prob_order", "true_prob_order", "random_walk", "honeywords"])
     if mode != "true_prob_order":
         worlds.normalise(t, spec)        # honeyword modes walk cumulative sums: lists must be distributions
-    wr = scratch.fresh_disk()
+    wr = scratch.fresh_disk(scratch.draw_place(t))
     rdir = os.path.join(wr, "Rules", "R")
     worlds.write_ruleset(spec, rdir)
     res.sample = {"flags": flags, "mode": mode, "ruleset": worlds.spec_summary(spec)}
@@ -298,9 +298,13 @@ def _run_one(tape, tier, prop):
         return res
     Ns = sorted({1, M - 1, t.between(1, M)} - {0})
     for n in Ns:
-        tx, sm, rr = run_proc(argv + ["--limit", str(n)], mode_rng=SimRandom(rng_seed))
+        # flags these modes have no use for (--load: there is no session to restore) are part of "every flag combination"
+        extra = ["--load"] if t.chance(1, 3) else []
+        if extra:
+            res.stats["honeyword_runs_with_load_flag"] += 1
+        tx, sm, rr = run_proc(argv + extra + ["--limit", str(n)], mode_rng=SimRandom(rng_seed))
         if rr.exc:
-            res.violate("C09", "raised", {"exception": rr.exc[-1200:]})
+            res.violate("C09", "raised", {"exception": rr.exc[-1200:], "argv": argv + extra})
             break
         if not check_pure(tx, sm, "limit=%d" % n):
             break
